@@ -237,7 +237,7 @@ def counting_spec(draw):
         # repeated calls on the same date are part of its contract
         calls = sorted(draw(st.lists(st.integers(0, n - 1), min_size=1, max_size=2 * n)))
         nn = draw(st.integers(1, 6))
-        params = {"n": nn, "offset": draw(st.integers(0, nn - 1))}
+        params = {"n": nn, "offset": draw(st.one_of(st.integers(0, nn - 1), st.integers(0, 3 * nn)))}  # an offset of a full cycle or more delays the first run further
     else:
         calls = list(range(n)) if draw(st.booleans()) else sorted(draw(st.lists(st.integers(0, n - 1), min_size=1, max_size=n, unique=True)))
         if kind == "RunOnDate":
